@@ -5,7 +5,7 @@
 P="$(readlink -f "$1")"; ID="$2"; TIER="${3:-quick}"
 WT="/tmp/vm-$$-$ID"
 git -C /repo worktree add -q "$WT" HEAD || exit 2
-cd "$WT" && git apply "$P" || { echo "patch does not apply"; git -C /repo worktree remove --force "$WT"; exit 2; }
+cd "$WT" && { git apply "$P" 2>/dev/null || git apply -3 "$P"; } || { echo "patch does not apply"; git -C /repo worktree remove --force "$WT"; exit 2; }
 if [ "$4" = "--tests" ]; then
   PYTHONPATH="$WT/src" PYTHONDONTWRITEBYTECODE=1 /venv/bin/python -m pytest -q -p no:cacheprovider -x 2>&1 | tail -1
 fi
